@@ -73,8 +73,64 @@ def evs(dq):
     return ",".join("%s.%s" % (e.signal_name[1:], e.payload) for e in dq)
 
 
-def run_real(c, eff, cap, ops, spied=True, instrumented=True, want_spy=False):
+class Twin:
+    """another queued chart object, alive next to the one under test and busy between (and inside) its operations: whatever the
+    library keeps per object must not leak from one object to the other"""
+
+    def __init__(self, seed, instrumented=True):
+        import random as _random
+        self.rng = _random.Random(seed)
+        self.hsm = mhsm.HsmWithQueues(instrumented=instrumented)
+        self.n = 0
+
+        def t1(chart, e):
+            if e.signal in (signals.ENTRY_SIGNAL, signals.INIT_SIGNAL, signals.EXIT_SIGNAL):
+                return return_status.HANDLED
+            if e.signal_name == "TW0":
+                return chart.trans(t2)
+            if e.signal_name == "TW1":
+                chart.defer(e)
+                return return_status.HANDLED
+            chart.temp.fun = chart.top
+            return return_status.SUPER
+
+        def t2(chart, e):
+            if e.signal in (signals.ENTRY_SIGNAL, signals.EXIT_SIGNAL):
+                return return_status.HANDLED
+            if e.signal == signals.INIT_SIGNAL:
+                return return_status.HANDLED
+            if e.signal_name == "TW0":
+                chart.recall()
+                return chart.trans(t1)
+            chart.temp.fun = t1
+            return return_status.SUPER
+        t1.__name__, t2.__name__ = "tw1", "tw2"
+        if instrumented:
+            t1, t2 = mhsm.spy_on(t1), mhsm.spy_on(t2)
+        self.hsm.start_at(t1)
+
+    def poke(self):
+        for _ in range(self.rng.randint(0, 2)):
+            r = self.rng.random()
+            self.n += 1
+            if r < 0.35:
+                self.hsm.post_fifo(Event(signal="TW%d" % self.rng.randrange(3), payload=self.n))
+            elif r < 0.5:
+                self.hsm.post_lifo(Event(signal="TW%d" % self.rng.randrange(3), payload=self.n))
+            elif r < 0.6:
+                self.hsm.defer(Event(signal="TW2", payload=self.n))
+            elif r < 0.7:
+                self.hsm.recall()
+            elif r < 0.95:
+                self.hsm.next_rtc()
+            else:
+                self.hsm.clear_spy()
+                self.hsm.clear_trace()
+
+
+def run_real(c, eff, cap, ops, spied=True, instrumented=True, want_spy=False, twin_seed=None):
     base = charts.probed_class(mhsm.HsmWithQueues)
+    twin = Twin(twin_seed, instrumented=instrumented) if twin_seed is not None else None
 
     class Q(base):
         QUEUE_SIZE = cap
@@ -106,6 +162,8 @@ def run_real(c, eff, cap, ops, spied=True, instrumented=True, want_spy=False):
         return e
 
     def effects(chart, i, kind, e):
+        if twin is not None and kind in ("en", "ex") and twin.rng.random() < 0.3:
+            twin.poke()
         for ek, a in eff.get((i, kind), ()):
             if ek == "F":
                 chart.post_fifo(mkev(a))
@@ -124,6 +182,8 @@ def run_real(c, eff, cap, ops, spied=True, instrumented=True, want_spy=False):
     inv = {getattr(getattr(f, "__wrapped__", f), "__name__"): i for i, f in fns.items()}
     out, spies = [], []
     for o, a in ops:
+        if twin is not None:
+            twin.poke()
         del log[:]
         del hsm._vp_marks[:]
         ndisp = len(hsm._vp_disp)
@@ -201,6 +261,9 @@ def gen_case(rng, caps=(2, 3, 4, 5, 500), eff_rate=0.25, nops=(3, 14), nmax=8):
     eff = gen_effects(rng, c, rate=rng.choice([0.0, eff_rate, eff_rate, 0.5]))
     cap = rng.choice(caps)
     ops = gen_qops(rng, c, rng.randint(*nops))
+    if rng.random() < 0.12 and len(ops) > 3:
+        # the same chart object started again in the middle of its history (queues are kept)
+        ops.insert(rng.randint(2, len(ops) - 1), (0, rng.randrange(1, c.n + 1)))
     return c, eff, cap, ops
 
 
@@ -219,9 +282,12 @@ def explore(run, focus, n_random):
     for k, o in zip(cases, outs):
         c, eff, cap, ops = k
         spied = rng.random() < 0.5
-        real, hsm, _ = run_real(c, eff, cap, ops, spied=spied)
+        twin_seed = rng.randrange(1 << 30) if rng.random() < 0.3 else None
+        real, hsm, _ = run_real(c, eff, cap, ops, spied=spied, twin_seed=twin_seed)
         model = o.split(" | ")
-        cj = case_json(c, eff, cap, ops, spied=spied)
+        cj = case_json(c, eff, cap, ops, spied=spied, twin_seed=twin_seed)
+        if twin_seed is not None:
+            run.count("a second queued chart object busy alongside")
         run.traces_validated += 1
         if real != model:
             run.disagree("queued chart: queue/defer/dispatched/call log after every op", cj, model, real)
@@ -525,7 +591,7 @@ def replay(case):
         print("sequence of operations on %d kept event objects (%s chart):" % (cc["pool"], "instrumented" if cc["instrumented"] else "un-instrumented"), cc["ops"])
         return 0
     c, eff, cap, ops = from_json(cc)
-    real, _, _ = run_real(c, eff, cap, ops, spied=cc.get("spied", True))
+    real, _, _ = run_real(c, eff, cap, ops, spied=cc.get("spied", True), twin_seed=cc.get("twin_seed"))
     model = leanrun.run_driver([encode(c, eff, cap, ops)])[0].split(" | ")
     for i, o in enumerate(ops):
         print("op", o)
